@@ -588,6 +588,7 @@ func c18r3(c *core.Ctx) {
 	// "ctrl-\ufffd": it cannot be looked up or deleted under the name it reports, and two names that differ in invalid bytes are listed as one.
 	if ld := p.Func("db", "(*database).entityForKey"); ld != nil && len(ld.Params) > 1 {
 		fromKey := false
+		var cutset *ssa.Call
 		for _, b := range bodies(ld) {
 			core.Instrs(b.fn, func(i ssa.Instruction) {
 				st, ok := i.(*ssa.Store)
@@ -603,10 +604,27 @@ func c18r3(c *core.Ctx) {
 							if valIs(b.lift(a), ld.Params[1]) || valIs(a, ld.Params[1]) {
 								fromKey = true
 							}
+							// the suffix is taken off as a suffix: the cutset functions of package strings remove every trailing
+							// (leading) character that occurs in the set — with ".entity" that includes the hex digit 'e'
+							if call, isC := a.(*ssa.Call); isC {
+								if g := call.Call.StaticCallee(); g != nil && g.Pkg != nil && g.Pkg.Pkg.Path() == "strings" && (g.Name() == "TrimRight" || g.Name() == "Trim" || g.Name() == "TrimLeft") {
+									if set, isK := core.ConstString(call.Call.Args[1]); isK && strings.ContainsAny(set, "0123456789abcdefABCDEF") {
+										cutset = call
+									}
+								}
+							}
 						})
 					}
 				})
 			})
+		}
+		if fromKey {
+			pos := ld.Pos()
+			if cutset != nil {
+				pos = cutset.Pos()
+			}
+			c.Check(cutset == nil, "loaded-name-key-suffix-removed@"+fname(ld), pos, "the hex part of the key is not trimmed with a character set that contains hex digits",
+				"the suffix is removed from the key with a cutset function of package strings (TrimRight/Trim/TrimLeft) whose set contains hex digits: every trailing hex digit that occurs in the set is removed with the suffix, and an entity whose name ends in such a nibble comes back under another name (or the JSON name with its invalid bytes replaced)")
 		}
 		c.Check(fromKey, "loaded-name-from-key@"+fname(ld), ld.Pos(), "the name of a loaded entity is decoded from its key", "the name of a loaded entity is whatever the stored JSON says: for a name that is not valid UTF-8 that is a different name (invalid bytes replaced by U+FFFD) — the entity cannot be found or deleted under the name it reports, and distinct names are listed as one. C18 holds 'for every entity name', names are arbitrary bytes")
 	} else {
